@@ -19,7 +19,7 @@ PROPS = {
         ],
     },
     "C19": {
-        "lean_modules": ["JrpcProofs.Props.C19", "JrpcProofs.Facts.Auth", "JrpcProofs.Trans.Auth", "JrpcProofs.Trans.AuthHTTP"],
+        "lean_modules": ["JrpcProofs.Props.C19", "JrpcProofs.Facts.Auth", "JrpcProofs.Trans.Auth", "JrpcProofs.Trans.AuthHTTP", "JrpcProofs.Trans.WithPerm"],
         "assumptions": ["net/http delivers header and form values as documented; permissions are compared for equality only"],
     },
     "C10": {
